@@ -324,10 +324,10 @@ Qed.
 
 Lemma op_of_not_eof c op : op_of c = Some op -> op <> EOF.
 Proof.
-  unfold op_of. intros H Heq. subst op.
-  repeat match type of H with
-  | context [match ?x with _ => _ end] => destruct x; try discriminate
-  end.
+  unfold op_of, model_operators. cbn [assoc_N].
+  repeat (match goal with |- context [N.eqb ?k c] => destruct (N.eqb k c) end;
+          [intros [= <-]; discriminate|]).
+  discriminate.
 Qed.
 
 Lemma next_token_fuel_spec : forall fuel s pre,
